@@ -136,6 +136,16 @@ func (ex *Exec) builtin(st *State, name string, cc *ssa.CallCommon, args []Value
 			return VBV{BV(64, 0), true}
 		}
 		old := st.heap[dst.Obj]
+		if dl, ok := dst.Len.U64(); ok && dl <= 256 && n.Op != "const" {
+			// constant-size destination, symbolic source length: byte i is copied iff i < len(src)
+			arr := old
+			for i := uint64(0); i < dl; i++ {
+				at := BVAdd(dst.Off, BVU(64, i))
+				arr = Store(arr, at, Ite(BVUlt(BVU(64, i), srcLen), Select(srcArr, BVAdd(srcOff, BVU(64, i))), Select(old, at)))
+			}
+			st.heap[dst.Obj] = arr
+			return VBV{n, true}
+		}
 		if c, ok := n.U64(); ok && c <= 256 {
 			arr := old
 			for i := uint64(0); i < c; i++ {
@@ -492,13 +502,30 @@ func (ex *Exec) applyContract(st *State, fn *ssa.Function, c *Contract, args []V
 			}
 		}
 		// number of EmitTypedEvent calls inside the callee is unknown to the caller: keep indices apart
-		if len(emits) > 0 {
+		// the callee's k-th emission is this function's (emitN+k)-th; on failure their number is unknown
+		if succ[bi] {
+			for _, cl := range emits {
+				if cl.E.Op == "list" {
+					bs.emitN += len(cl.E.Args)
+				}
+			}
+		} else if len(emits) > 0 {
 			bs.emitN += 100
+		}
+		if succ[bi] {
+			for _, cl := range calls {
+				if cl.E.Op == "list" {
+					bs.callN += len(cl.E.Args)
+				}
+			}
+		} else if len(calls) > 0 {
+			bs.callN += 100
 		}
 		// callee may have changed the external world
 		if len(calls) > 0 {
 			bs.ext = Fresh("ext", "Ext")
 		}
+		var facts []*Term
 		for _, cl := range c.byKind("ensures") {
 			if !relevant(cl, ex.prop) {
 				continue
@@ -508,16 +535,33 @@ func (ex *Exec) applyContract(st *State, fn *ssa.Function, c *Contract, args []V
 				ex.oblige(bs, "binding", c.Key+"#binding", nil, TFalse, fmt.Sprintf("ensures[%s]: %v", cl.Label, err))
 				return
 			}
-			bs.assume(t)
-			for _, s := range ectx.side {
-				bs.assume(s)
-			}
+			facts = append(facts, t)
+			facts = append(facts, ectx.side...)
 			ectx.side = nil
+		}
+		// definitional postconditions (result == expression) bind the result instead of adding an equation
+		resVars := map[*Term]bool{}
+		for _, r := range res {
+			ex.collectVars(bs, r, resVars)
+		}
+		sub, rest := definitional(facts, resVars)
+		bres := res
+		if len(sub) > 0 {
+			bres = make([]Value, len(res))
+			for i, r := range res {
+				bres[i] = ex.substValue(bs, r, sub)
+			}
+			for i, t := range bs.pc {
+				bs.pc[i] = substFix(t, sub)
+			}
+		}
+		for _, t := range rest {
+			bs.assume(t)
 		}
 		if bs.infeasible() {
 			continue
 		}
-		k(bs, res)
+		k(bs, bres)
 	}
 }
 
@@ -600,4 +644,241 @@ func relevantClauses(cs []*Clause, prop string) []*Clause {
 		}
 	}
 	return out
+}
+
+// ---- definitional bindings
+
+func substFix(t *Term, m map[*Term]*Term) *Term {
+	for i := 0; i < 8; i++ {
+		n := Subst(t, m)
+		if n == t {
+			return n
+		}
+		t = n
+	}
+	return t
+}
+
+func occurs(v, t *Term) bool {
+	seen := map[*Term]bool{}
+	var rec func(t *Term) bool
+	rec = func(t *Term) bool {
+		if t == v {
+			return true
+		}
+		if seen[t] {
+			return false
+		}
+		seen[t] = true
+		for _, a := range t.Args {
+			if rec(a) {
+				return true
+			}
+		}
+		return false
+	}
+	return rec(t)
+}
+
+// definitional splits facts into bindings v := e for fresh result variables and the remaining facts.
+func definitional(facts []*Term, vars map[*Term]bool) (map[*Term]*Term, []*Term) {
+	sub := map[*Term]*Term{}
+	var rest []*Term
+	bind := func(v, e *Term) bool {
+		if !vars[v] || sub[v] != nil || occurs(v, e) {
+			return false
+		}
+		sub[v] = e
+		return true
+	}
+	var handle func(t *Term, guard *Term)
+	handle = func(t *Term, guard *Term) {
+		t = substFix(t, sub)
+		if t == TTrue {
+			return
+		}
+		if t.Op == "and" {
+			for _, a := range t.Args {
+				handle(a, guard)
+			}
+			return
+		}
+		if guard == nil {
+			switch {
+			case t.Op == "var" && bind(t, TTrue):
+				return
+			case t.Op == "not" && t.Args[0].Op == "var" && bind(t.Args[0], TFalse):
+				return
+			case t.Op == "=":
+				if t.Args[0].Op == "var" && bind(t.Args[0], t.Args[1]) {
+					return
+				}
+				if t.Args[1].Op == "var" && bind(t.Args[1], t.Args[0]) {
+					return
+				}
+				// (not v) = e  for booleans
+				if t.Args[0].Op == "not" && t.Args[0].Args[0].Op == "var" && bind(t.Args[0].Args[0], Not(t.Args[1])) {
+					return
+				}
+				if t.Args[1].Op == "not" && t.Args[1].Args[0].Op == "var" && bind(t.Args[1].Args[0], Not(t.Args[0])) {
+					return
+				}
+			case t.Op == "=>":
+				handle(t.Args[1], t.Args[0])
+				return
+			}
+			rest = append(rest, t)
+			return
+		}
+		// guarded: v := ite(guard, e, v')
+		g := substFix(guard, sub)
+		if t.Op == "=" {
+			for _, o := range [][2]*Term{{t.Args[0], t.Args[1]}, {t.Args[1], t.Args[0]}} {
+				v, e := o[0], o[1]
+				if v.Op == "var" && vars[v] && sub[v] == nil && !occurs(v, e) && !occurs(v, g) {
+					nv := Fresh(v.Name, v.Sort)
+					vars[nv] = true
+					sub[v] = Ite(g, e, nv)
+					return
+				}
+			}
+		}
+		if t.Op == "var" && vars[t] && sub[t] == nil && !occurs(t, g) {
+			nv := Fresh(t.Name, SBool)
+			vars[nv] = true
+			sub[t] = Ite(g, TTrue, nv)
+			return
+		}
+		if t.Op == "not" && t.Args[0].Op == "var" && vars[t.Args[0]] && sub[t.Args[0]] == nil && !occurs(t.Args[0], g) {
+			nv := Fresh(t.Args[0].Name, SBool)
+			vars[nv] = true
+			sub[t.Args[0]] = Ite(g, TFalse, nv)
+			return
+		}
+		rest = append(rest, Implies(g, t))
+	}
+	for _, f := range facts {
+		handle(f, nil)
+	}
+	// normalise: bindings may mention later-bound variables
+	for v, e := range sub {
+		sub[v] = substFix(e, sub)
+	}
+	return sub, rest
+}
+
+func (ex *Exec) collectVars(st *State, v Value, out map[*Term]bool) {
+	var term func(t *Term)
+	seen := map[*Term]bool{}
+	term = func(t *Term) {
+		if t == nil || seen[t] {
+			return
+		}
+		seen[t] = true
+		if t.Op == "var" {
+			out[t] = true
+		}
+		for _, a := range t.Args {
+			term(a)
+		}
+	}
+	var rec func(v Value, depth int)
+	rec = func(v Value, depth int) {
+		if depth > 6 {
+			return
+		}
+		switch x := v.(type) {
+		case VBool:
+			term(x.T)
+		case VBV:
+			term(x.T)
+		case VStr:
+			term(x.T)
+		case VErr:
+			term(x.Is)
+		case VBig:
+			term(x.Nil)
+			term(x.V)
+		case VSlice:
+			term(x.Len)
+			term(x.Nil)
+			term(x.Whole)
+		case VStruct:
+			for _, f := range x.F {
+				rec(f, depth+1)
+			}
+		case VPtr:
+			if x.Cell > 0 {
+				rec(st.cells[x.Cell], depth+1)
+			}
+			term(x.NilT)
+		case VList:
+			term(x.Len)
+			for _, c := range x.Cols {
+				term(c)
+			}
+		case VTuple:
+			for _, e := range x {
+				rec(e, depth+1)
+			}
+		}
+	}
+	rec(v, 0)
+}
+
+func (ex *Exec) substValue(st *State, v Value, m map[*Term]*Term) Value {
+	s := func(t *Term) *Term {
+		if t == nil {
+			return nil
+		}
+		return substFix(t, m)
+	}
+	switch x := v.(type) {
+	case VBool:
+		return VBool{s(x.T)}
+	case VBV:
+		return VBV{s(x.T), x.Signed}
+	case VStr:
+		return VStr{s(x.T)}
+	case VErr:
+		return VErr{s(x.Is)}
+	case VBig:
+		return VBig{Nil: s(x.Nil), V: s(x.V)}
+	case VSlice:
+		n := VSlice{Obj: x.Obj, Off: s(x.Off), Len: s(x.Len), Cap: s(x.Cap), Nil: s(x.Nil), Whole: s(x.Whole)}
+		if x.Obj >= 0 {
+			if h, ok := st.heap[x.Obj]; ok {
+				st.heap[x.Obj] = s(h)
+			}
+			ex.objs[x.Obj].Size = s(ex.objs[x.Obj].Size)
+		}
+		return n
+	case VStruct:
+		nf := make([]Value, len(x.F))
+		for i, f := range x.F {
+			nf[i] = ex.substValue(st, f, m)
+		}
+		return VStruct{T: x.T, F: nf}
+	case VPtr:
+		if x.Cell > 0 {
+			st.cells[x.Cell] = ex.substValue(st, st.cells[x.Cell], m)
+		}
+		if x.NilT != nil {
+			return VPtr{Cell: x.Cell, Path: x.Path, NilT: s(x.NilT), Val: x.Val}
+		}
+		return x
+	case VList:
+		nl := VList{ElemT: x.ElemT, Len: s(x.Len), Cols: map[string]*Term{}}
+		for k, c := range x.Cols {
+			nl.Cols[k] = s(c)
+		}
+		return nl
+	case VTuple:
+		nt := make(VTuple, len(x))
+		for i, e := range x {
+			nt[i] = ex.substValue(st, e, m)
+		}
+		return nt
+	}
+	return v
 }
